@@ -21,6 +21,8 @@ type Plan struct {
 	Rule     string
 	Enum     string // "" | "disconnect" | "stop" | "malformed": fault enumeration over base histories
 	EnumBase [2]int // base histories quick/thorough
+	// EnumProfiles: profiles of the base histories (default: Profiles)
+	EnumProfiles []string
 }
 
 var plans = map[string]Plan{}
@@ -124,6 +126,15 @@ func loadKnown() []KnownFinding {
 	return k.Findings
 }
 
+func traceHas(tr []Decision, kind, sub string) bool {
+	for _, d := range tr {
+		if d.K == kind && strings.Contains(d.P, sub) {
+			return true
+		}
+	}
+	return false
+}
+
 func matchKnown(kf []KnownFinding, v Violation) *KnownFinding {
 	for i := range kf {
 		k := &kf[i]
@@ -224,7 +235,11 @@ func check(prop, tier string, opts map[string]string) int {
 		if tier == "thorough" {
 			nb = plan.EnumBase[1]
 		}
-		enumRuns = enumerate(prop, plan, profiles, seed, nb, a, &crashes)
+		ep := profiles
+		if len(plan.EnumProfiles) > 0 && opts["profiles"] == "" {
+			ep = plan.EnumProfiles
+		}
+		enumRuns = enumerate(prop, plan, ep, seed, nb, a, &crashes)
 	}
 
 	trouble := false
@@ -244,7 +259,16 @@ func check(prop, tier string, opts map[string]string) int {
 		v := Violation{Prop: "C15", Clause: "a", Shape: "crash:" + crashShape(wo.stderr), Msg: "the gateway process terminated: " + crashSummary(wo.stderr)}
 		r := workResult{Cfg: *cfg, Res: &RunResult{Seed: cfg.Seed, Trace: cfg.Replay, Stats: map[string]int{}, Probes: map[string]int{}}}
 		r.Cfg.Replay = nil
-		if prop == "C15" {
+		// a crash after an injected Stop / loss of the messaging system is a
+		// violation of C20 ("without crashing"), one after a client disconnect
+		// of C11 (no effect on other connections)
+		if prop == "C20" && traceHas(cfg.Replay, "fault", "") {
+			v.Prop, v.Clause = "C20", "b"
+		}
+		if prop == "C11" && traceHas(cfg.Replay, "cli", `"close"`) {
+			v.Prop, v.Clause = "C11", "b"
+		}
+		if v.Prop == prop {
 			a.mu.Lock()
 			k := v.Key()
 			if a.viols[k] == nil {
